@@ -285,12 +285,42 @@ Definition value_raw_ok (v : value) : bool :=
   match v with VStr s => nosent s | VList l => forallb item_raw_ok l | _ => true end.
 Definition ctx_raw_ok (c : ctx) : bool := forallb (fun kv => value_raw_ok (snd kv)) c.
 
-Definition case := (list (str * template) * template * ctx * bool)%type.
+(* ------------------------------------------------------------------ *)
+(* histories on one Ribosome instance                                    *)
+(* What a Ribosome keeps between calls: the registered templates, the filter table (the
+   built-in one here), the strict/silent flags and two statistics counters
+   (_translations_count, _errors_count; read only by get_statistics()).  translate() reads
+   the templates, the filters and strict, and nothing else: in particular it reads neither
+   counter and keeps no per-render state on the instance.  The model's instance state has
+   the templates, the flag and ONE counter standing for the statistics (the number of
+   top-level calls; the real counters also count nested translates and are not observed). *)
+Record instance := mkInstance {
+  i_templates : list (str * template);
+  i_strict : bool;
+  i_calls : Z }.
+
+Definition call := (template * ctx)%type.
+
+(* one top-level synthesize(main, **cx) on the instance: new state, outcome, taint outcome *)
+Definition step (i : instance) (cl : call) : instance * (outcome * (toutcome * list failure)) :=
+  let Ts := print_templates (i_templates i) in
+  let s := print (fst cl) in
+  (mkInstance (i_templates i) (i_strict i) (i_calls i + 1),
+   (render_impl (i_strict i) Ts (snd cl) s, render_taint (i_strict i) Ts (snd cl) s)).
+
+Fixpoint run_calls (i : instance) (cls : list call) : list (outcome * (toutcome * list failure)) :=
+  match cls with
+  | [] => []
+  | cl :: rest => let '(i', o) := step i cl in o :: run_calls i' rest
+  end.
+
+(* case: registered templates, the calls made on ONE instance in order, strict *)
+Definition case := (list (str * template) * list call * bool)%type.
 
 (* the reference rendering (both modes, delimiter-free or not) whenever the templates are of the
    grammar and the context is sentinel-free *)
-Definition spec_row (c : case) : list Z :=
-  let '(T, main, cx, strict) := c in
+Definition spec_row (T : list (str * template)) (strict : bool) (cl : call) : list Z :=
+  let '(main, cx) := cl in
   if well_formed main && forallb (fun nt => well_formed (snd nt)) T && ctx_raw_ok cx then
     match render_spec strict T cx main with
     | SOk t _ => 1 :: t
@@ -300,12 +330,14 @@ Definition spec_row (c : case) : list Z :=
     end
   else [0].
 
-(* rows: error; text; warnings; opacity failures (origin*16+pass, sorted);
-         reference rendering when applicable; plain model = erased taint model *)
+(* rows per call: error; text; warnings; opacity failures (origin*16+pass, sorted);
+                  reference rendering when applicable; plain model = erased taint model *)
+Definition call_rows (T : list (str * template)) (strict : bool) (cl : call)
+                     (o : outcome * (toutcome * list failure)) : list (list Z) :=
+  let plain := obs_plain (fst o) in
+  plain ++ [pairs_row (snd (snd o)); spec_row T strict cl; [b2z (zll_eqb plain (obs_taint (fst (snd o))))]].
+
 Definition run_case (c : case) : list (list Z) :=
-  let '(T, main, cx, strict) := c in
-  let Ts := print_templates T in
-  let s := print main in
-  let plain := obs_plain (render_impl strict Ts cx s) in
-  let '(tr, lg) := render_taint strict Ts cx s in
-  plain ++ [pairs_row lg; spec_row c; [b2z (zll_eqb plain (obs_taint tr))]].
+  let '(T, cls, strict) := c in
+  concat (map (fun co => call_rows T strict (fst co) (snd co))
+              (combine cls (run_calls (mkInstance T strict 0) cls))).
